@@ -16,6 +16,27 @@ CHECKS = {
         "Thresholds are restricted to values the sampler can produce (logL of a live sample; any alphabet value <= max live in soft mode, thorough). Values outside the alphabet and depths beyond the bound are not covered.",
         "4/C04",
     ),
+    "C01": (
+        "model_checking",
+        "explicit-state BFS over the real consume_sample/populate_live_points driven by a scripted proposal, plus invariant monitors on real runs",
+        "Part A: a real NestedSampler (public constructor, scripted proposal) is advanced through every answer word of the proposal (<= 2 rejected answers of 6 kinds, then an accepted answer at every gap / tie / above-max position, pool emptied or not), from every initial population order with interleaved rejected candidates, with a pickle/resume event and finalise in every state, for nlive 2..3 (quick) / 2..5 (thorough); states are rank-compressed live sets (finite, explored to fixpoint); a list model runs in lock step and the C01 oracle is evaluated after every transition. Part B: the same oracle runs after every iteration of complete real runs over a lattice of proposal classes, latent priors, reparameterisations, flow types, shrinkage modes and resume-at-every-checkpoint histories.",
+        "Order-isomorphic live sets have isomorphic futures for the C01 observables (only comparisons are applied to logL). nlive > 5 only through part B. Real runs use tiny Gaussian models and flows.",
+        "4/C01",
+    ),
+    "C03": (
+        "exploration",
+        "bounded-exhaustive configuration lattice x all resume-point subsets, invariant monitor on every iteration and every stored sample",
+        "Real importance-sampler runs over the configuration lattice (quick: every single deviation; thorough: full 384-configuration product) and every subset of resume points of the default run; after every iteration, after finalise and after every resume each stored sample of both sets is checked: per-proposal densities re-evaluated from the proposals, mixture weights = fraction drawn per proposal, logQ = log mixture, logW = logU - logQ, unit hypercube, logL = model.",
+        "float32 flow densities compared at 1e-4; 4-iteration runs on tiny models.",
+        "4/C03",
+    ),
+    "C05": (
+        "exploration",
+        "configuration lattice x resume histories with independent (mpmath) recomputation of the estimator from the returned arrays",
+        "Completed runs of both samplers over their configuration lattices and resume histories (none, once, every checkpoint, all subsets for the INS default; converged and iteration-capped): logZ, information, sqrt(H/nlive), posterior weights, sample counts, ordering, model fidelity of logL/logP, birth likelihoods, posterior rows and the result dictionary are recomputed from the returned samples only.",
+        "nessai's documented information recursion (zero until two finite contributions) is the estimator recomputed.",
+        "4/C05",
+    ),
     "C02": (
         "exploration",
         "bounded-exhaustive enumeration of logL words x live-count schedules against a 50-digit mpmath quadrature",
@@ -61,7 +82,8 @@ NOT_APPLICABLE = [
 ]
 
 ENGINES = [
-    {"name": "E1/E2 explorer", "path": "mc/explore.py", "serves_properties": ["C04", "C18"], "kind_free_text": "level-synchronous explicit-state BFS over real transition functions (history replay, canonical hashing, lock-step reference model); deviation-bounded choice-tree DFS"},
+    {"name": "E1/E2 explorer", "path": "mc/explore.py", "serves_properties": ["C01", "C04", "C18"], "kind_free_text": "level-synchronous explicit-state BFS over real transition functions (history replay, canonical hashing, lock-step reference model); deviation-bounded choice-tree DFS"},
+    {"name": "real-run driver and monitors", "path": "mc/runs.py", "serves_properties": ["C01", "C03", "C05"], "kind_free_text": "tiny configurations of both samplers, kill-at-checkpoint resume histories, invariant monitors (mc/monitors.py), independent result oracles"},
     {"name": "runner", "path": "mc/core.py", "serves_properties": [], "kind_free_text": "context, 16-process fork pool, evidence writer with schema validation, known-finding matcher, replay files"},
 ]
 
